@@ -60,7 +60,7 @@ KSigfield(i) == <<115, 105, 103, 102, 105, 101, 108, 100, 48 + i>>     \* "sigfi
 KTimestamp  == <<116, 105, 109, 101, 115, 116, 97, 109, 112>>          \* "timestamp"
 KReturned   == <<114, 101, 116, 117, 114, 110, 101, 100>>              \* "returned"
 
-SigFields(sc) == [i \in {j \in 1..8 : ScHas(sc, KSigfield(j))} |-> ScGet(sc, KSigfield(i)).v]
+SigFields(sc) == [i \in {j \in 1..8 : ScHas(sc, KSigfield(j))} |-> ScGet(sc, KSigfield(i)).v]   \* bytes or bytearray
 
 ----------------------------------------------------------------------------
 \* Hints
@@ -555,8 +555,17 @@ OpMerkleval(v, h) ==
 OpLess(v, strict) == LET a == PopIntN(v, 2) IN IF Bad(a) THEN a
     ELSE Put(a, Bool(IF strict THEN Less(DecS(a.p[1]), DecS(a.p[2])) ELSE Leq(DecS(a.p[1]), DecS(a.p[2]))))
 
-\* GET_VALUE: one string-keyed entry, serialised by type; `returned` is the
-\* interpreter's own string key (a bool: nothing is pushed)
+\* GET_VALUE: one string-keyed entry (or each element of a list / tuple entry), serialised by
+\* type; `returned` is the interpreter's own string key (a bool: nothing is pushed)
+PutValue(v, h, e) ==
+    IF Bad(v) THEN v
+    ELSE IF e.t \in {"bytes", "str", "float"} THEN Put(v, e.v)
+    ELSE IF e.t = "bytearray" THEN Raise(v, "TypeError")          \* the stack holds only bytes items
+    ELSE IF e.t = "floatoverflow" THEN Raise(v, "OverflowError")  \* not representable in 32 bits
+    ELSE IF e.t = "int" THEN PutInt(v, h, MkInt(e.neg, e.v))
+    ELSE v
+RECURSIVE PutValues(_, _, _)
+PutValues(v, h, es) == IF es = <<>> \/ Bad(v) THEN v ELSE PutValues(PutValue(v, h, Head(es)), h, Tail(es))
 OpGetValue(v, h) ==
     LET a == RdKey(v) IN
     IF Bad(a) THEN a
@@ -565,10 +574,7 @@ OpGetValue(v, h) ==
          ELSE IF key = KReturned /\ a.ret THEN a
          ELSE IF ~ScHas(a.cfg.sc, key) THEN Raise(a, SEE)
          ELSE LET e == ScGet(a.cfg.sc, key) IN
-              IF e.t \in {"bytes", "str", "float"} THEN Put(a, e.v)
-              ELSE IF e.t = "int" THEN PutInt(a, h, MkInt(e.neg, e.v))
-              ELSE IF e.t = "list" THEN PutAll(a, h.pushed)
-              ELSE a
+              IF e.t = "list" THEN PutValues(a, h, e.items) ELSE PutValue(a, h, e)
 
 \* float comparisons / conversions: length checks here, value from primitive
 PopF4(v) == PopF(v, "ValueError")
@@ -692,6 +698,7 @@ CtLoop(v, h, flag, i, acc) == \* acc = <<all_valid, comparisons so far>>
     ELSE LET a == Pop(v) IN
          IF Bad(a) THEN a
          ELSE IF ~ScHas(a.cfg.sc, KSigfield(i)) THEN Raise(a, "KeyError")
+         ELSE IF ScGet(a.cfg.sc, KSigfield(i)).t # "bytes" THEN Raise(a, "TypeError")   \* compared on a Stack of bytes
          ELSE LET field == ScGet(a.cfg.sc, KSigfield(i)).v
                   n == acc[2] + 1
                   ok == IF a.cfg.nct > 0 /\ TT(a).plug THEN (n <= Len(h.ct) /\ h.ct[n]) ELSE LastOf(a.p) = field
